@@ -51,11 +51,23 @@ def WF(E, X, S=None):
     ]
 
 
+def uses_plan_id_set():
+    """plan_id_set mirrors the plan as a set; it is auxiliary state.  The invariant speaks about it only while
+    the controller's code maintains it (so removing that bookkeeping altogether is not an alarm)"""
+    from pyvc import extract
+    import ast as pyast
+    tree, text = extract.parse_module(REL)
+    for node in pyast.walk(tree):
+        if isinstance(node, pyast.ClassDef) and node.name == "ExecutionController":
+            return "plan_id_set" in (pyast.get_source_segment(text, node) or "")
+    return False
+
+
 def PI(P, S, X):
     """plan invariant"""
     x, d = z3.Consts("x d", Id)
-    return [
-        ("plan_id_set=set(plan)", S == P.M),
+    aux = [("plan_id_set=set(plan)", S == P.M)] if uses_plan_id_set() else []
+    return aux + [
         ("planned-not-executed", ForAll([x], Implies(P.has(x), And(Not(Select(X, x)), Select(DOM, x))))),
         ("planned-deps-executed-or-earlier-in-plan",
          ForAll([x, d], Implies(And(P.has(x), dep(x, d)),
@@ -149,7 +161,7 @@ class ResetContract(FunctionContract):
         P = sf(st, "plan")
         return [("plan-empty", P.lo == P.hi),
                 ("plan-has-no-members", ForAll([x], Not(P.has(x)))),
-                ("plan_id_set-empty", ForAll([x], Not(Select(sf(st, "plan_id_set").t, x)))),
+                ] + ([("plan_id_set-empty", ForAll([x], Not(Select(sf(st, "plan_id_set").t, x))))] if uses_plan_id_set() else []) + [
                 ("executed_ids-empty", ForAll([x], Not(Select(sf(st, "executed_ids").t, x))))]
 
 
